@@ -220,7 +220,7 @@ class ConnWorld(World):
         device_psk: bytes | None = None,
         expected_name: str | None = None,
         password: str | None = None,
-        keepalive: float = 1e6,
+        keepalive: float | None = 1e6,
         addresses: tuple[str, ...] = ("10.0.0.1",),
         client: bool = False,
         device_name: str | None = "dev",
@@ -247,14 +247,15 @@ class ConnWorld(World):
         if client:
             from aioesphomeapi.client import APIClient
 
+            kw: dict[str, Any] = {} if keepalive is None else {"keepalive": keepalive}  # None = the library's default
             self.client = APIClient(
                 addresses[0],
                 6053,
                 password,
-                keepalive=keepalive,
                 noise_psk=noise_psk,
                 expected_name=expected_name,
                 addresses=list(addresses),
+                **kw,
             )
         else:
             self.params = ConnectionParams(
